@@ -70,7 +70,7 @@ def gen_ops(rng, label, n):
     ks, vs = KEYS[kind], values(kind, rng)
     ops = []
     for _ in range(n):
-        k = rng.choice(['set', 'set', 'set', 'del', 'update', 'pop', 'clear', 'setdefault', 'mutate', 'cached-dump', 'rewrite'])
+        k = rng.choice(['set', 'set', 'set', 'del', 'update', 'pop', 'clear', 'setdefault', 'mutate', 'cached-dump', 'rewrite', 'readmutate'])
         if k == 'set':
             ops.append(('set', rng.choice(ks), rng.choice(vs)))
         elif k in ('del', 'pop'):
@@ -86,6 +86,8 @@ def gen_ops(rng, label, n):
             ops.append(('mutate', rng.choice(ks)))
         elif k == 'cached-dump':
             ops.append(('cached-dump', [(rng.choice(ks), rng.choice(vs)) for _ in range(rng.randint(1, 3))]))
+        elif k == 'readmutate':
+            ops.append(('readmutate',))
         elif k == 'rewrite':
             # the same key rewritten at once with a value of the same size: what a stale cache would miss
             key = rng.choice(ks)
@@ -145,6 +147,17 @@ def run_history(label, ops, scratch, proc_every):
                     c[a] = fresh_copy(b)
                     ref[a] = fresh_copy(b)
                 c.dump()
+            elif k == 'readmutate':
+                # what a read hands out is the caller's own copy: changing it changes nothing that is stored
+                for key, val in list(ref.items()):
+                    if isinstance(val, list):
+                        got = h[key]
+                        got.append('changed by the reader')
+                        break
+                    if isinstance(val, dict):
+                        got = h[key]
+                        got['changed by the reader'] = 1
+                        break
             elif k == 'rewrite':
                 h[op[1]] = op[2]
                 sc.ctor(label, path)[op[1]]      # a reader in between
@@ -153,7 +166,15 @@ def run_history(label, ops, scratch, proc_every):
         except Exception as e:
             problems.append({'step': i, 'op': op, 'what': '%s raised %s: %s' % (op[0], type(e).__name__, e)})
             break
-        # ---- a fresh handle in this process
+        # ---- the writing handle itself, then a fresh handle in this process
+        try:
+            cur = dict(h.items())
+            if not same_dict(cur, ref):
+                problems.append({'step': i, 'op': op, 'what': 'the handle that wrote reads %s, written: %s' % (short(cur), short(ref))})
+                break
+        except Exception as e:
+            problems.append({'step': i, 'op': op, 'what': 'the handle that wrote fails to read: %s: %s' % (type(e).__name__, e)})
+            break
         try:
             fresh = sc.ctor(label, path)
             if i % 3 == 0:
@@ -271,7 +292,7 @@ def run_refunc(label, rng, scratch):
 
     def fn(x):
         calls.append(x)
-        return x * x + 1
+        return None if x % 3 == 0 else x * x + 1     # None is a result like any other
     keymap = {'default': None, 'hash': km.hashmap(flat=True), 'string': km.stringmap(flat=True), 'pickle': km.picklemap(flat=True)}[kmname]
     kw = {} if algo == 'inf_cache' else {'maxsize': 50}
     f = getattr(klepto, algo)(cache=sc.ctor(label, path, cached=True), keymap=keymap, **kw)(fn)
@@ -285,7 +306,7 @@ def run_refunc(label, rng, scratch):
 
         def fn2(x):
             calls2.append(x)
-            return x * x + 1
+            return None if x % 3 == 0 else x * x + 1     # None is a result like any other
         g = getattr(klepto, algo)(cache=sc.ctor(label, path, cached=True), keymap=keymap, **kw)(fn2)
         if use_load:
             g.load()
